@@ -19,8 +19,8 @@ theorem writeRaw_ok (arch : Arch) (c w s f : OpTensor) (ins outs : List OpTensor
     z.cmdData = c.values ∧ z.weightData = w.values ∧ z.scratchShape = s.shape ∧ z.scratchFastShape = f.shape ∧
     getRegion arch w.memType = some z.weightRegion ∧ getRegion arch s.memType = some z.scratchRegion ∧
     getRegion arch f.memType = some z.scratchFastRegion ∧ ioOf arch ins = .ok z.input ∧ ioOf arch outs = .ok z.output := by
-  unfold writeRaw at h
-  simp only at h
+  unfold writeRaw writeRawG at h
+  simp only [Bool.false_eq_true, if_false] at h
   split at h
   · rename_i wr sr fr hwr hsr hfr
     split at h
